@@ -395,3 +395,5 @@ for _k, _what in (("C25", "340 programs x {export, export with cycle breaking}")
     CHECKS[_k]["text"] += (" A fixed corpus (" + _what + ", independent of the run's seed) is judged in the same way; the cases on which "
                            "the pinned tree already fails are listed one by one (tools/" + _k.lower() + "_corpus_known.json), so that the broad "
                            "signatures of the known findings of this property cannot hide a new failure there.")
+CHECKS["C09"]["text"] += (" The model carries the table of propagated evidence values (lookup_evidence) and is checked for every sound table; random "
+                          "graphs are also run with the real propagate filling that table, as the default pipeline does.")
